@@ -295,6 +295,18 @@ func Run(r *fw.Run) {
 			}
 		}
 	}
+	// a letter whose case fold is shorter in UTF-8, spelled the same in two paths, with an ordinary case
+	// difference later in the directory path (and the same without a difference)
+	{
+		mini := []string{"\u017fa/x.go", "\u017fA/y.go", "\u212ab/x", "\u212aB/y", "\u212a/b/z", "\u212a/B/w", "\u2126x/q/r", "\u2126X/q/s", "\u212a/b/z2", "\u017fa/y.go"}
+		for i := range mini {
+			for j := range mini {
+				if i != j {
+					lists = append(lists, []string{mini[i], mini[j]})
+				}
+			}
+		}
+	}
 	for i, a := range pool2 {
 		lists = append(lists, []string{a})
 		for j := i; j < len(pool2); j++ {
